@@ -28,6 +28,11 @@ def run(v):
                                 ledger_every=(3 if q else 1), trace_module="GroupLineTrace", name="C07p",
                                 driver={"defs": D.alt_pos_family(SEED + 1790, 24, maxlen=4, budget=10**9), "n": 5000 if q else 100000, "gen": gen})
     cov = merge_cov(cov, pcov, "alt_pos")
+    # ties between branches that succeed on nothing; the `choice` function as the entry point
+    tfam = D.alt_tie_family(SEED + 791, 16 if q else 64, maxlen=3 if q else 4, budget=2500 if q else 25000)
+    tcov = run_cmdline_property(v, tfam, None, replay_cfg="MC_GroupLine_replay.cfg", module="MC_GroupLine", signature=cmdline_sig.signature,
+                                trace_module="GroupLineTrace", name="C07t")
+    cov = merge_cov(cov, tcov, "alt_tie")
     cov["rule"] = ("choices over 2..4 branches drawn from {req_flag, argument, two-item groups with optional members} under "
                    "bare/optional/many/some, next to other options and positionals; all lines up to maxlen in every order; "
                    "AltExclusive and the greedy-leftmost denotation checked/used by TLC (GroupLine.tla); subcommand "
